@@ -11,7 +11,8 @@
  * Modes: base32 base32hex base64 utf8to16 utf8iso utf16even utf16odd utfany adversarial adv8any
  *        adv16odd adv16tail chain incompat exhaustive (classes are split where a known crash would otherwise
  *        end the process before the rest of the class is explored)
- * Options: --maxlen=N (largest random input), --nrand=N (random inputs per trial)
+ * Options: --maxlen=N (largest random input), --nrand=N (random inputs per trial),
+ *          --flush=N (emit the aggregated trial lines every N trials)
  *
  * What is judged (see the rule text in vf/p_C20.py):
  *  - none->baseN output == reference encoding, for every fragmentation
@@ -342,10 +343,12 @@ static void flush_counters(void)
 }
 
 /* ------------------------------------------------------------------ trial bookkeeping */
-/* one "trial" line per (pair, input class, fragmentation class, outcome class) tuple and trial */
-#define MAX_TUPLES 512
-static struct tuple { char sig[112]; uint64_t n; bool nontrivial; char sample[400]; } g_tuples[MAX_TUPLES];
-static int g_ntuples;
+/* "trial" lines aggregate cases by signature (pair, input class, fragmentation class, outcome class); the table is
+ * flushed every --flush trials (and when it fills up), so that the number of output lines stays bounded */
+#define TUPLE_SLOTS 8192   /* open addressing, power of two */
+#define TUPLE_FULL 6000
+static struct tuple { uint64_t key; char sig[112]; uint64_t n; bool nontrivial; char sample[400]; } g_tuples[TUPLE_SLOTS];
+static int g_ntuples, g_batch_first = -1;
 static uint64_t g_cases;
 
 #define FEAT_MB    1u   /* cut inside a multi-byte UTF-8 sequence */
@@ -354,34 +357,40 @@ static uint64_t g_cases;
 #define FEAT_PADG  8u   /* cut inside the final, padded base-N group */
 #define FEAT_APAD 16u   /* cut after a '=' character */
 
+static void flush_tuples(void)
+{
+	for (int i = 0; i < TUPLE_SLOTS; i++) {
+		if (!g_tuples[i].n) continue;
+		vf_emit("trial", "\"n\":%llu,\"trial\":%d,\"sig\":\"%s\",\"nontrivial\":%s,\"sample\":%s",
+				(unsigned long long)g_tuples[i].n, g_batch_first, g_tuples[i].sig, g_tuples[i].nontrivial ? "true" : "false", g_tuples[i].sample);
+		g_tuples[i].n = 0; g_tuples[i].key = 0;
+	}
+	g_ntuples = 0;
+}
 static void note_case(int fi, int fo, const char *icls, size_t k, unsigned feat, const char *kind, const char *outcome,
 		const uint8_t *b, size_t n, const size_t *sz)
 {
-	char sig[112];
-	const char *kb = k <= 1 ? "1" : k == 2 ? "2" : k == 3 ? "3" : k == 4 ? "4" : k <= 16 ? "5-16" : "17+";
-	snprintf(sig, sizeof(sig), "%s>%s|%s|%s:r%s%s%s%s%s%s|%s", fname[fi], fname[fo], icls, kind, kb,
-			feat & FEAT_MB ? "+mb" : "", feat & FEAT_PAIR ? "+pair" : "", feat & FEAT_UNIT ? "+unit" : "",
-			feat & FEAT_PADG ? "+padgroup" : "", feat & FEAT_APAD ? "+afterpad" : "", outcome);
+	int kb = k <= 1 ? 0 : k <= 4 ? (int)k - 1 : k <= 16 ? 4 : 5;
+	static const char *const kbs[] = { "1", "2", "3", "4", "5-16", "17+" };
+	uint64_t h = vf_hash64(VF_HASH_INIT, (uint64_t)fi | (uint64_t)fo << 8 | (uint64_t)kb << 16 | (uint64_t)feat << 24);
+	h = vf_hash_str(vf_hash_str(vf_hash_str(h, icls) * 31, kind) * 31, outcome) | 1;
 	g_cases++;
-	int i;
-	for (i = 0; i < g_ntuples; i++) if (!strcmp(g_tuples[i].sig, sig)) break;
-	if (i == g_ntuples) {
-		if (g_ntuples == MAX_TUPLES) { g_tuples[MAX_TUPLES - 1].n++; return; }
-		struct tuple *t = &g_tuples[g_ntuples++];
+	size_t i = (size_t)(h >> 7) & (TUPLE_SLOTS - 1);
+	while (g_tuples[i].n && g_tuples[i].key != h) i = (i + 1) & (TUPLE_SLOTS - 1);
+	if (!g_tuples[i].n) {
+		struct tuple *t = &g_tuples[i];
 		char hx[128], ss[160];
-		snprintf(t->sig, sizeof(t->sig), "%s", sig);
-		t->n = 0; t->nontrivial = k >= 2;
+		t->key = h;
+		snprintf(t->sig, sizeof(t->sig), "%s>%s|%s|%s:r%s%s%s%s%s%s|%s", fname[fi], fname[fo], icls, kind, kbs[kb],
+				feat & FEAT_MB ? "+mb" : "", feat & FEAT_PAIR ? "+pair" : "", feat & FEAT_UNIT ? "+unit" : "",
+				feat & FEAT_PADG ? "+padgroup" : "", feat & FEAT_APAD ? "+afterpad" : "", outcome);
+		t->nontrivial = k >= 2;
 		snprintf(t->sample, sizeof(t->sample), "{\"pair\":\"%s>%s\",\"class\":\"%s\",\"input_hex\":\"%s\",\"regions\":\"%s\",\"outcome\":\"%s\"}",
 				fname[fi], fname[fo], icls, hexs(hx, sizeof(hx), b, n), sz ? sizes_str(ss, sizeof(ss), sz, k) : "[]", outcome);
+		g_ntuples++;
 	}
 	g_tuples[i].n++;
-}
-static void flush_tuples(int idx)
-{
-	for (int i = 0; i < g_ntuples; i++)
-		vf_emit("trial", "\"n\":%llu,\"trial\":%d,\"sig\":\"%s\",\"nontrivial\":%s,\"sample\":%s",
-				(unsigned long long)g_tuples[i].n, idx, g_tuples[i].sig, g_tuples[i].nontrivial ? "true" : "false", g_tuples[i].sample);
-	g_ntuples = 0;
+	if (g_ntuples >= TUPLE_FULL) flush_tuples();
 }
 
 /* ------------------------------------------------------------------ inputs and fragmentations */
@@ -1215,6 +1224,7 @@ static void run_adversarial(vf_rng_t *r, int which, bool do_rand, size_t maxlen)
 			adv_pair(r, a, F_ANY, F_UTF8, par, nr, false);
 		} else if (which == 0) {
 			adv_pair(r, a, a->fmt, F_NONE, PAR_ANY, nr, false);
+			if (i % 16 == 0) adv_pair(r, a, F_NONE, F_NONE, PAR_ANY, 2, false);   /* the identity pair is a supported pair too */
 		} else {
 			for (int j = 0; j < 3; j++) adv_pair(r, a, a->fmt, basen[j], PAR_ANY, nr, true);
 		}
@@ -1273,6 +1283,8 @@ int main(int argc, char **argv)
 	bool thorough = !strcmp(vf_opts.tier, "thorough");
 	size_t maxlen = (size_t)vf_opt_long("maxlen", thorough ? 4096 : 600);
 	int ninputs = (int)(vf_opt_long("nrand", 10) * vf_opts.scale / 100);
+	int flush_every = (int)vf_opt_long("flush", thorough ? 100 : 10);
+	if (flush_every < 1) flush_every = 1;
 	if (maxlen < 80) maxlen = 80;
 	if (ninputs < 1) ninputs = 1;
 	for (int tr = 0; tr < vf_opts.trials; tr++) {
@@ -1280,6 +1292,7 @@ int main(int argc, char **argv)
 		vf_rng_t r;
 		vf_rng_seed(&r, vf_opts.seed, (uint64_t)idx * 7919 + vf_hash_str(VF_HASH_INIT, mode) % 1000);
 		g_cur.trial = idx;
+		if (g_batch_first < 0) g_batch_first = idx;
 		vf_watch_begin("transform", 0);
 		if (!strcmp(mode, "base32")) run_basen(&r, F_B32, idx, true, true, maxlen, ninputs);
 		else if (!strcmp(mode, "base32hex")) run_basen(&r, F_B32HEX, idx, true, true, maxlen, ninputs);
@@ -1309,7 +1322,7 @@ int main(int argc, char **argv)
 		vf_count("cases", g_cases); g_cases = 0;
 		vf_count("transforms_called", g_calls); g_calls = 0;
 		flush_counters();
-		flush_tuples(idx);
+		if ((tr + 1) % flush_every == 0 || tr + 1 == vf_opts.trials) { flush_tuples(); g_batch_first = -1; }
 	}
 	return vf_finish();
 }
